@@ -836,6 +836,11 @@ class Analysis:
             p = ptr()
             inner = self.read_cell(st, p[1], (), None) if p and not p[2].t else args[0]
             return ("B", ("not", ("is_some", inner)))
+        if fn in ("core::result::Result::<T, E>::is_ok", "core::result::Result::<T, E>::is_err"):
+            p = ptr()
+            inner = self.read_cell(st, p[1], (), None) if p and not p[2].t else args[0]
+            cs.no_effects = True
+            return ("B", ("is_ok", inner)) if fn.endswith("is_ok") else ("B", ("not", ("is_ok", inner)))
         return None
 
     def iter_elem(self, it, tag):
